@@ -1,5 +1,5 @@
 (* C06 — Wrapped and sealed keys are tamper-evident and bound to header, key and password. *)
-From PV Require Import Bytes Result Oracle Local Paserk PaserkProofs PkeProofs PaserkTamper.
+From PV Require Import Bytes Result Oracle Local Paserk PaserkProofs PkeProofs PaserkTamper Base64 Text TextProofs.
 Local Open Scope string_scope.
 Local Open Scope list_scope.
 
@@ -167,6 +167,13 @@ Theorem C06_pbkw_prefix_injective : forall (P : pw_params) (s s' q q' n n' : byt
   s ++ q ++ n = s' ++ q' ++ n' -> (s, q, n) = (s', q', n').
 Proof. exact pw_prefix_injective. Qed.
 
+(* ---- text level ("truncating or extending the blob", as a string): a wrapped / sealed key text that was changed in any
+        way and still parses under the same header carries other bytes — to which the byte-level theorems apply.
+        PASERK texts have no alias (unlike tokens, no optional trailing dot). ---- *)
+Theorem C06_text_change_changes_blob : forall (ver kind s1 s2 d1 d2 : bytes),
+  parse_paserk ver kind s1 = Ok d1 -> parse_paserk ver kind s2 = Ok d2 -> s1 <> s2 -> d1 <> d2.
+Proof. exact paserk_text_change_changes_data. Qed.
+
 Print Assumptions C06_pie_auth_input.
 Print Assumptions C06_pie_auth_inputs_differ.
 Print Assumptions C06_pbkw_mac_input_injective.
@@ -196,3 +203,4 @@ Print Assumptions C06_pke_v1_accept_iff.
 Print Assumptions C06_pke_v1_wrong_length.
 Print Assumptions C06_pke_v1_tag_tamper.
 Print Assumptions C06_pke_mac_input_injective.
+Print Assumptions C06_text_change_changes_blob.
